@@ -17,7 +17,7 @@ use std::future::Future;
 use std::io::{self, Read};
 use std::pin::Pin;
 use std::rc::Rc;
-use std::task::{Context, Poll, RawWaker, RawWakerVTable, Waker};
+use std::task::{Context, Poll};
 
 #[derive(Debug, Clone, Copy, Hash, PartialEq, Eq, Serialize, Deserialize)]
 pub enum Step {
@@ -272,7 +272,7 @@ pub fn drive_blocking(
                     if slices {
                         of_slice(reader.next_message_slice())
                     } else {
-                        of_parsed(dlt_core::read::read_message(&mut reader, filter))
+                        of_parsed(dlt_core::read::read_message(&mut reader, filter_at(i, filter).as_ref()))
                     }
                 }) {
                     Ok(o) => o,
@@ -288,7 +288,7 @@ pub fn drive_blocking(
                             if use_slice(api, i + 1 + j) {
                                 of_slice(reader.next_message_slice())
                             } else {
-                                of_parsed(dlt_core::read::read_message(&mut reader, filter))
+                                of_parsed(dlt_core::read::read_message(&mut reader, filter_at(i + 1 + j, filter).as_ref()))
                             }
                         }) {
                             Ok(o) => o,
@@ -324,26 +324,35 @@ pub fn drive_blocking(
     (out, t)
 }
 
-fn noop_waker() -> Waker {
-    fn clone(_: *const ()) -> RawWaker {
-        RawWaker::new(std::ptr::null(), &VTABLE)
+
+/// counts the wake-ups a future arranges (the mock source wakes at once when it stalls)
+struct CountWaker(std::sync::atomic::AtomicUsize);
+impl std::task::Wake for CountWaker {
+    fn wake(self: std::sync::Arc<Self>) {
+        self.0.fetch_add(1, std::sync::atomic::Ordering::Relaxed);
     }
-    fn noop(_: *const ()) {}
-    static VTABLE: RawWakerVTable = RawWakerVTable::new(clone, noop, noop, noop);
-    unsafe { Waker::from_raw(RawWaker::new(std::ptr::null(), &VTABLE)) }
+    fn wake_by_ref(self: &std::sync::Arc<Self>) {
+        self.0.fetch_add(1, std::sync::atomic::Ordering::Relaxed);
+    }
 }
 
-/// poll a future to completion with a poll budget (`None` = the budget ran out)
-fn block_on_budget<F: Future>(fut: F, budget: usize) -> Option<F::Output> {
-    let waker = noop_waker();
+/// poll a future to completion with a poll budget (`Err` = the budget ran out, or the future returned `Pending`
+/// without having arranged a wake-up: an executor that polls again only when woken would never come back to it)
+fn block_on_budget<F: Future>(fut: F, budget: usize) -> Result<F::Output, String> {
+    let counter = std::sync::Arc::new(CountWaker(std::sync::atomic::AtomicUsize::new(0)));
+    let waker = std::task::Waker::from(counter.clone());
     let mut cx = Context::from_waker(&waker);
     let mut fut = Box::pin(fut);
-    for _ in 0..budget {
+    for k in 0..budget {
+        let before = counter.0.load(std::sync::atomic::Ordering::Relaxed);
         if let Poll::Ready(v) = fut.as_mut().poll(&mut cx) {
-            return Some(v);
+            return Ok(v);
+        }
+        if counter.0.load(std::sync::atomic::Ordering::Relaxed) == before {
+            return Err(format!("poll #{} returned Pending although nothing woke (or will wake) the task: lost wake-up", k));
         }
     }
-    None
+    Err(format!("future still pending after {} polls", budget))
 }
 
 /// Same protocol for the async reader, on a hand-rolled executor.
@@ -384,14 +393,12 @@ pub fn drive_async(
                 if slices {
                     block_on_budget(reader.next_message_slice(), budget).map(of_slice)
                 } else {
-                    block_on_budget(dlt_core::stream::read_message(&mut reader, filter), budget)
+                    block_on_budget(dlt_core::stream::read_message(&mut reader, filter_at(i, filter).as_ref()), budget)
                         .map(of_parsed)
                 }
             }) {
-                Ok(Some(o)) => o,
-                Ok(None) => {
-                    Outcome::Runaway(format!("future still pending after {} polls", budget))
-                }
+                Ok(Ok(o)) => o,
+                Ok(Err(why)) => Outcome::Runaway(why),
                 Err(p) => Outcome::Panic(p.describe()),
             };
             let stop = matches!(o, Outcome::End | Outcome::Panic(_) | Outcome::Runaway(_));
@@ -465,7 +472,7 @@ pub fn reference(
             r.outcomes.push(Outcome::Slice(piece.to_vec()));
         } else {
             r.outcomes.push(
-                match guard(|| dlt_message(piece, filter, storage).map(|(_, pm)| pm)) {
+                match guard(|| dlt_message(piece, filter_at(r.outcomes.len(), filter).as_ref(), storage).map(|(_, pm)| pm)) {
                     Ok(x) => of_parsed(x.map(Some)),
                     Err(p) => Outcome::Panic(p.describe()),
                 },
@@ -695,6 +702,25 @@ pub fn schedule() -> BoxedStrategy<Schedule> {
             Schedule { steps, then_chunk, then_stall }
         })
         .boxed()
+}
+
+thread_local! {
+    /// a second filter configuration for the odd-numbered calls of a run (the filter is an argument of every call)
+    static ALT_FILTER: RefCell<Option<Option<ProcessedDltFilterConfig>>> = const { RefCell::new(None) };
+}
+/// run `f` with call i of every driver / of the reference using `filter` (i even) or the configuration `alt` (i odd)
+pub fn with_alternating_filter<T>(alt: Option<u8>, f: impl FnOnce() -> T) -> T {
+    ALT_FILTER.with(|a| *a.borrow_mut() = alt.map(filter_by_index));
+    let r = f();
+    ALT_FILTER.with(|a| *a.borrow_mut() = None);
+    r
+}
+/// the filter of call number i
+fn filter_at(i: usize, filter: Option<&ProcessedDltFilterConfig>) -> Option<ProcessedDltFilterConfig> {
+    ALT_FILTER.with(|a| match (&*a.borrow(), i % 2) {
+        (Some(alt), 1) => alt.clone(),
+        _ => filter.cloned(),
+    })
 }
 
 pub fn filter_for(i: u8) -> Option<ProcessedDltFilterConfig> {
